@@ -18,8 +18,8 @@ import (
 )
 
 func init() {
-	runners["C06"] = func(o *Out, rng *RNG, tier, replay string) { runCache(o, rng, tier, "C06") }
-	runners["C07"] = func(o *Out, rng *RNG, tier, replay string) { runCache(o, rng, tier, "C07") }
+	runners["C06"] = func(o *Out, rng *RNG, tier, replay string) { runCache(o, rng, tier, "C06", replay) }
+	runners["C07"] = func(o *Out, rng *RNG, tier, replay string) { runCache(o, rng, tier, "C07", replay) }
 }
 
 // faultFS wraps a filespace and makes the k-th MUTATING call fail without effect (k counted from 1
@@ -199,7 +199,7 @@ func genRemote(rng *RNG, gen *FsGen) (filesystem.Filespace, *RefFS) {
 	return fs, ref
 }
 
-func runCache(o *Out, rng *RNG, tier string, prop string) {
+func runCache(o *Out, rng *RNG, tier string, prop string, replay string) {
 	o.Imports = "From GC Require Import Common.Base Model.Paths Model.Fs Model.Cache Corr.FsCorr Corr.C06."
 	o.CaseType = "case"
 	o.CheckFn = "check"
@@ -219,8 +219,12 @@ func runCache(o *Out, rng *RNG, tier string, prop string) {
 	if tier == "thorough" {
 		n = 20000
 	}
+	only := replayIndex(replay)
 	for i := 0; i < n; i++ {
 		r := rng.Fork()
+		if only >= 0 && i != only {
+			continue
+		}
 		gen.Reset()
 		remoteMem, ref := genRemote(r, gen)
 		initWalk, _, _ := walkFs(remoteMem)
@@ -381,7 +385,7 @@ func runCache(o *Out, rng *RNG, tier string, prop string) {
 			}
 			descSteps[k] = m
 		}
-		desc := map[string]interface{}{"remote": walkDesc(initWalk), "steps": descSteps}
+		desc := map[string]interface{}{"index": i, "remote": walkDesc(initWalk), "steps": descSteps}
 		if fail != "" {
 			relevant := true
 			if prop == "C07" && (strings.HasPrefix(sig, "commit") || sig == "remote-touched" || sig == "fault-unreported") {
